@@ -370,9 +370,13 @@ fn lookup(t: &mut Tracer, r: &mut Rng, cap: usize, part: usize, nparts: usize) {
         t.call("Tzdb.fresh", json!({}));
         let mut asked: Vec<(String, Value)> = Vec::new();
         // a failing query first in every other session: it must leave nothing behind
+        // (alternately a name without any data and the database directory the session's first zone lives in - "Europe",
+        // "America/Indiana": a failed lookup of the directory must not change what its zones answer afterwards)
         if gi % 2 == 0 {
-            t.call("Tzdb.table", json!({"zone": "Nowhere/Land"}));
-            t.call("Tzdb.offset", json!({"zone": "Nowhere/Land", "t": pt(1_000_000_000, 0)}));
+            let dir = group[0].rsplit_once('/').map(|(d, _)| d.to_string());
+            let bad = match dir { Some(d) if gi % 4 == 0 => d, _ => "Nowhere/Land".to_string() };
+            t.call("Tzdb.table", json!({"zone": bad}));
+            t.call("Tzdb.offset", json!({"zone": bad, "t": pt(1_000_000_000, 0)}));
         }
         for z in group {
             let tab = t.call("Tzdb.table", json!({"zone": z}));
